@@ -113,6 +113,15 @@ func sameShape(orig, got []gen.Row, l int) error {
 	return nil
 }
 
+// show prints rows compactly, shortened for the large inputs
+func show(rows []gen.Row) string {
+	s := gen.Show(rows)
+	if len(s) > 1200 {
+		return s[:1200] + fmt.Sprintf("... (%d rows)", len(rows))
+	}
+	return s
+}
+
 func aliLen(rows []gen.Row) int {
 	if len(rows) == 0 {
 		return 0
@@ -251,7 +260,7 @@ func invShuffleSeqs(orig, got []gen.Row) error {
 	sort.Strings(b)
 	for i := range a {
 		if a[i] != b[i] {
-			return fmt.Errorf("rows after the shuffle are not a permutation of the rows before: %s", gen.Show(got))
+			return fmt.Errorf("rows after the shuffle are not a permutation of the rows before: %s", show(got))
 		}
 	}
 	return nil
@@ -363,7 +372,7 @@ func invSwap(orig, got []gen.Row, rate, pos float64) error {
 		return false
 	}
 	if !perfectPairs(len(ch), pairOK) {
-		return fmt.Errorf("the changed rows %v cannot be split into pairs that exchanged their suffix from a break point in [%d,%d]\n before: %s\n after : %s", ch, pLo, pHi, gen.Show(orig), gen.Show(got))
+		return fmt.Errorf("the changed rows %v cannot be split into pairs that exchanged their suffix from a break point in [%d,%d]\n before: %s\n after : %s", ch, pLo, pHi, show(orig), show(got))
 	}
 	return nil
 }
@@ -419,7 +428,7 @@ func invRecombine(orig, got []gen.Row, prop, lenprop float64, swap bool) error {
 			return false
 		}
 		if !perfectPairs(len(ch), ok) {
-			return fmt.Errorf("the changed rows %v cannot be split into pairs that exchanged a window of %d columns\n before: %s\n after : %s", ch, wLo, gen.Show(orig), gen.Show(got))
+			return fmt.Errorf("the changed rows %v cannot be split into pairs that exchanged a window of %d columns\n before: %s\n after : %s", ch, wLo, show(orig), show(got))
 		}
 		return nil
 	}
@@ -442,7 +451,7 @@ func invRecombine(orig, got []gen.Row, prop, lenprop float64, swap bool) error {
 		return false
 	}
 	if !injective(len(ch), len(donors), ok) {
-		return fmt.Errorf("the changed rows %v are not each the original row with a window of %d columns copied from a distinct unchanged row\n before: %s\n after : %s", ch, wLo, gen.Show(orig), gen.Show(got))
+		return fmt.Errorf("the changed rows %v are not each the original row with a window of %d columns copied from a distinct unchanged row\n before: %s\n after : %s", ch, wLo, show(orig), show(got))
 	}
 	return nil
 }
@@ -644,7 +653,7 @@ func invBootstrap(orig, got []gen.Row, frac float64) (amb int, err error) {
 	}
 	for j, c := range colsOf(got) {
 		if !have[c] {
-			return amb, fmt.Errorf("bootstrap column %d = %q is not a column of the original %s", j, c, gen.Show(orig))
+			return amb, fmt.Errorf("bootstrap column %d = %q is not a column of the original %s", j, c, show(orig))
 		}
 	}
 	return amb, nil
@@ -693,10 +702,30 @@ func invSubAlign(orig, got []gen.Row, length int, consecutive bool) error {
 				return nil
 			}
 		}
-		return fmt.Errorf("the result is not a window of %d consecutive columns of the original\n original: %s\n result  : %s", length, gen.Show(orig), gen.Show(got))
+		return fmt.Errorf("the result is not a window of %d consecutive columns of the original\n original: %s\n result  : %s", length, show(orig), show(got))
+	}
+	// fast path (long alignments): when the original columns are pairwise different the choice is
+	// injective iff every result column exists and none is repeated
+	where := make(map[string]int, l)
+	for j, x := range co {
+		where[x] = j
+	}
+	if len(where) == l {
+		used := make(map[int]bool, length)
+		for p, x := range cg {
+			j, ok := where[x]
+			if !ok {
+				return fmt.Errorf("result column %d = %q is not a column of the original", p, x)
+			}
+			if used[j] {
+				return fmt.Errorf("column %d of the original was taken twice (result column %d)", j, p)
+			}
+			used[j] = true
+		}
+		return nil
 	}
 	if !injective(length, l, func(p, j int) bool { return cg[p] == co[j] }) {
-		return fmt.Errorf("the result columns are not %d distinct columns of the original\n original: %s\n result  : %s", length, gen.Show(orig), gen.Show(got))
+		return fmt.Errorf("the result columns are not %d distinct columns of the original\n original: %s\n result  : %s", length, show(orig), show(got))
 	}
 	return nil
 }
@@ -728,7 +757,7 @@ func invRarefy(orig, got []gen.Row, nb int, counts map[string]int) error {
 		return fmt.Errorf("%d distinct rows from %d draws", len(got), nb)
 	}
 	if sum < nb {
-		return fmt.Errorf("%d draws without replacement cannot all fall on rows whose counts sum to %d (result %s)", nb, sum, gen.Show(got))
+		return fmt.Errorf("%d draws without replacement cannot all fall on rows whose counts sum to %d (result %s)", nb, sum, show(got))
 	}
 	return nil
 }
